@@ -95,6 +95,17 @@ def dispatch (f : String) (j : Json) : Option Json :=
       let some l := (get j "line").bind parseLine | return bad
       let some idxs := (get j "idx").bind asNats | return bad
       return Json.arr (idxs.map (fun i => optNatJson (b2c l i))).toArray
+  | "C06.bloc_end" => some <| Id.run do
+      -- cases: [[line code points, end_col], ...]
+      let some cs := getArr j "cases" | return bad
+      let one (c : Json) : Json :=
+        match asArr c with
+        | some #[l, e] =>
+          match parseLine l, asNat e with
+          | some l, some e => ofNat (blocEndCol l e)
+          | _, _ => bad
+        | _ => bad
+      return Json.arr (cs.toList.map one).toArray
   | "C06.is_space" => some <| Id.run do
       let some cs := (get j "chars").bind asNats | return bad
       return Json.arr (cs.map (fun c => Json.bool (isSpace (Char.ofNat c)))).toArray
